@@ -399,7 +399,7 @@ class G:
         if self.ok("dimension_stmt") and r.random() < 0.2:
             self.emit(depth, "dimension q(10)", feat="dimension_stmt")
         if self.ok("save") and r.random() < 0.2:
-            self.emit(depth, "save", feat="save")
+            self.emit(depth, r.choice(["save", "save", "save /blk/, z", "save :: /blk/", "save a, /blk/", "save z"]), feat="save")
         if self.ok("data") and r.random() < 0.3:
             self.emit(depth, "data cx0 /1.0/", feat="data")
         if self.ok("interface") and r.random() < 0.25:
